@@ -8,6 +8,7 @@
 //   c15.dep <w> <n> <d> <polls>     task k is ready once tasks k+1..k+d have been polled; `polls` polls
 //   c15.try <w> <n> <errs> <op>…    seq_try_join_all; ops r<i>, p (one poll of the TryCollect future)
 //   c15.par <n> <errs> <op>…        SeqJoin::parallel_join; ops r<i>, p
+//   c15.tryp <w> <n> <errs> <op>…   seq_join(w, source).try_collect() over a source that may be Pending; ops s<k>, r<i>, p
 // Futures are driven by hand with a no-op waker; every future logs when it is polled.
 #[cfg(not(feature = "multi-threading"))]
 pub mod c15_local {
@@ -152,6 +153,49 @@ pub mod c15_local {
                 for _ in 0..polls {
                     sh.lock().unwrap().budget = usize::MAX;
                     out.push(poll_join(&mut joined, &sh, |j| j.as_ref().get_ref().ipa_verif_state().0));
+                }
+            }
+            "c15.tryp" => {
+                use futures::TryStreamExt;
+                let w: usize = t[1].parse().unwrap();
+                let n: usize = t[2].parse().unwrap();
+                sh.lock().unwrap().errs = parse_nat_list(t[3]);
+                let mut fut: Option<Pin<Box<dyn Future<Output = Result<Vec<usize>, usize>>>>> = Some(Box::pin(
+                    seq_join(NonZeroUsize::new(w).unwrap(), source(n, sh.clone())).try_collect::<Vec<usize>>(),
+                ));
+                for op in &t[4..] {
+                    let (c, arg) = op.split_at(1);
+                    match c {
+                        "s" => {
+                            sh.lock().unwrap().budget += arg.parse::<usize>().unwrap();
+                            out.push("s".into());
+                        }
+                        "r" => {
+                            sh.lock().unwrap().ready.push(arg.parse().unwrap());
+                            out.push("r".into());
+                        }
+                        "p" => match fut.as_mut() {
+                            None => out.push("gone".into()),
+                            Some(f) => {
+                                sh.lock().unwrap().polled.clear();
+                                let mut cx = Context::from_waker(futures::task::noop_waker_ref());
+                                let r = f.as_mut().poll(&mut cx);
+                                let polled = plus(&sh.lock().unwrap().polled);
+                                match r {
+                                    Poll::Pending => out.push(format!("P/{polled}")),
+                                    Poll::Ready(Ok(v)) => {
+                                        out.push(format!("OK:{}/{polled}", plus(&v)));
+                                        fut = None;
+                                    }
+                                    Poll::Ready(Err(e)) => {
+                                        out.push(format!("ERR:{e}/{polled}"));
+                                        fut = None;
+                                    }
+                                }
+                            }
+                        },
+                        _ => panic!("harness: unknown op {op}"),
+                    }
                 }
             }
             "c15.try" | "c15.par" => {
@@ -317,6 +361,100 @@ pub mod c15_local {
                 }
             }
         }
+        // ---- the source itself is Pending at every position k (it has yielded k items, then stalls
+        //      until everything in flight has been resolved and drained, then resumes)
+        for n in 1..=5usize {
+            for w in 1..=4usize {
+                for k in 0..=n {
+                    for desc in [false, true] {
+                        let mut ops: Vec<String> = vec![format!("s{k}"), "p".into()];
+                        let mut first: Vec<usize> = (0..k).collect();
+                        if desc {
+                            first.reverse();
+                        }
+                        for r in &first {
+                            ops.push(format!("r{r}"));
+                            ops.push("p".into());
+                        }
+                        ops.push("p".into()); // stalled: nothing in flight, source Pending
+                        ops.push("p".into());
+                        ops.push(format!("s{}", n + 1));
+                        ops.push("p".into());
+                        let mut rest: Vec<usize> = (k..n).collect();
+                        if desc {
+                            rest.reverse();
+                        }
+                        for r in &rest {
+                            ops.push(format!("r{r}"));
+                            ops.push("p".into());
+                            ops.push("p".into());
+                        }
+                        ops.push("p".into());
+                        out.push(format!("c15.join {w} {n} {}", ops.join(" ")));
+                    }
+                }
+            }
+        }
+        // ---- fallible join over a pending source: error at the first / last position, at and just
+        //      after the window edge, none; the source stalls before / at / after the error
+        for n in 1..=6usize {
+            for w in [1usize, 2, 3, 8] {
+                let mut epos: Vec<Option<usize>> = vec![None, Some(0), Some(n - 1)];
+                for e in [w - 1, w, w + 1] {
+                    if e < n {
+                        epos.push(Some(e));
+                    }
+                }
+                epos.dedup();
+                for e in epos {
+                    let stalls: Vec<usize> = match e {
+                        Some(e) => vec![0, e, e + 1, n],
+                        None => vec![0, n / 2, n],
+                    };
+                    for k in stalls {
+                        let mut order: Vec<usize> = (0..n).collect();
+                        if (n + w + k) % 2 == 1 {
+                            order.reverse();
+                        }
+                        let mut ops: Vec<String> = vec![format!("s{k}"), "p".into()];
+                        for (j, r) in order.iter().enumerate() {
+                            ops.push(format!("r{r}"));
+                            ops.push("p".into());
+                            if j == n / 2 {
+                                ops.push(format!("s{}", n + 1));
+                                ops.push("p".into());
+                            }
+                        }
+                        ops.push("p".into());
+                        let errs = e.map_or("-".to_string(), |e| e.to_string());
+                        out.push(format!("c15.tryp {w} {n} {errs} {}", ops.join(" ")));
+                    }
+                }
+            }
+        }
+        for _ in 0..(if thorough { 2000 } else { 200 }) {
+            let n = 1 + rng.usize_below(8);
+            let w = 1 + rng.usize_below(8);
+            let mask = if rng.below(3) == 0 { 0 } else { rng.usize_below(1 << n) };
+            let errs: Vec<usize> = (0..n).filter(|i| mask >> i & 1 == 1).collect();
+            let mut order: Vec<usize> = (0..n).collect();
+            rng.shuffle(&mut order);
+            let mut ops: Vec<String> = vec![];
+            for r in &order {
+                if rng.below(2) == 0 {
+                    ops.push(format!("s{}", rng.below(4)));
+                }
+                if rng.below(3) == 0 {
+                    ops.push("p".into());
+                }
+                ops.push(format!("r{r}"));
+                ops.push("p".into());
+            }
+            ops.push(format!("s{}", n + 1));
+            ops.push("p".into());
+            ops.push("p".into());
+            out.push(format!("c15.tryp {w} {n} {} {}", nat_list(&errs), ops.join(" ")));
+        }
         // ---- random longer schedules
         for _ in 0..(if thorough { 3000 } else { 300 }) {
             let n = 1 + rng.usize_below(20);
@@ -347,5 +485,197 @@ pub mod c15_local {
     #[test]
     fn verif_c15_local() {
         run_suite("c15_local", generate, exec);
+    }
+}
+
+// ------------------------------------------------------------------------------------------
+// C15 — the MULTI-THREADED implementation (seq_join/multi_thread.rs), built only with
+// `--features "ipa-verif multi-threading"` (props/C15.json `extra_builds`, thorough tier).
+// Futures are spawned on tokio worker threads by the implementation, so per-poll internals are not
+// observable; compared are the OUTPUTS and their ORDER:
+//
+//   c15mt.join <w> <n> <errs> <perm>   seq_try_join_all; futures are released (oneshot) in the order <perm>
+//   c15mt.stream <w> <n> <perm>        seq_join(..).collect(): items in the order they are emitted
+//   c15mt.par <n> <errs> <perm>        SeqJoin::parallel_join
+//   c15mt.dep <w> <n> <d>              task k completes once tasks k+1..k+d have started (d >= w: hang)
+//   response: OK:<i+j+…> | ERR:<e> | timeout
+// ------------------------------------------------------------------------------------------
+#[cfg(feature = "multi-threading")]
+pub mod c15_mt {
+    use std::{
+        num::NonZeroUsize,
+        sync::{
+            Arc,
+            atomic::{AtomicBool, Ordering},
+        },
+    };
+
+    use futures::{StreamExt, stream};
+    use tokio::sync::oneshot;
+
+    use super::super::{SeqJoin, seq_join, seq_try_join_all};
+    use crate::ipa_verif::proto::*;
+
+    struct Ctx(NonZeroUsize);
+    impl SeqJoin for Ctx {
+        fn active_work(&self) -> NonZeroUsize {
+            self.0
+        }
+    }
+
+    fn plus(xs: &[usize]) -> String {
+        if xs.is_empty() { "-".into() } else { xs.iter().map(ToString::to_string).collect::<Vec<_>>().join("+") }
+    }
+
+    fn fmt(r: Result<Vec<usize>, usize>) -> String {
+        match r {
+            Ok(v) => format!("OK:{}", plus(&v)),
+            Err(e) => format!("ERR:{e}"),
+        }
+    }
+
+    pub fn exec(req: &str) -> String {
+        let t: Vec<&str> = req.split(' ').collect();
+        let r = match t[0] {
+            "c15mt.join" | "c15mt.stream" | "c15mt.par" => {
+                let kind = t[0].to_string();
+                let (w, n, errs, perm): (usize, usize, Vec<usize>, Vec<usize>) = match t[0] {
+                    "c15mt.join" => (t[1].parse().unwrap(), t[2].parse().unwrap(), parse_nat_list(t[3]), parse_nat_list(t[4])),
+                    "c15mt.stream" => (t[1].parse().unwrap(), t[2].parse().unwrap(), vec![], parse_nat_list(t[3])),
+                    _ => (1, t[1].parse().unwrap(), parse_nat_list(t[2]), parse_nat_list(t[3])),
+                };
+                block_on_timeout(20, async move {
+                    let mut txs = vec![];
+                    let mut tasks = vec![];
+                    for i in 0..n {
+                        let (tx, rx) = oneshot::channel::<()>();
+                        txs.push(Some(tx));
+                        let is_err = errs.contains(&i);
+                        tasks.push(async move {
+                            rx.await.unwrap();
+                            if is_err { Err::<usize, usize>(i) } else { Ok(i) }
+                        });
+                    }
+                    let controller = tokio::spawn(async move {
+                        for (k, i) in perm.into_iter().enumerate() {
+                            if k % 2 == 0 {
+                                tokio::task::yield_now().await;
+                            }
+                            if let Some(tx) = txs[i].take() {
+                                let _ = tx.send(());
+                            }
+                        }
+                    });
+                    let active = NonZeroUsize::new(w).unwrap();
+                    let out = match kind.as_str() {
+                        "c15mt.join" => fmt(seq_try_join_all(active, tasks).await),
+                        "c15mt.stream" => {
+                            let items: Vec<Result<usize, usize>> = seq_join(active, stream::iter(tasks)).collect().await;
+                            fmt(items.into_iter().collect::<Result<Vec<usize>, usize>>())
+                        }
+                        _ => fmt(Ctx(active).parallel_join(tasks).await),
+                    };
+                    let _ = controller.await;
+                    out
+                })
+            }
+            "c15mt.dep" => {
+                let (w, n, d): (usize, usize, usize) = (t[1].parse().unwrap(), t[2].parse().unwrap(), t[3].parse().unwrap());
+                block_on_timeout(2, async move {
+                    let started: Arc<Vec<AtomicBool>> = Arc::new((0..n).map(|_| AtomicBool::new(false)).collect());
+                    let tasks: Vec<_> = (0..n)
+                        .map(|k| {
+                            let started = Arc::clone(&started);
+                            async move {
+                                started[k].store(true, Ordering::SeqCst);
+                                while !(1..=d).all(|j| k + j >= n || started[k + j].load(Ordering::SeqCst)) {
+                                    tokio::task::yield_now().await;
+                                }
+                                Ok::<usize, usize>(k)
+                            }
+                        })
+                        .collect();
+                    fmt(seq_try_join_all(NonZeroUsize::new(w).unwrap(), tasks).await)
+                })
+            }
+            _ => panic!("harness: unknown request {req}"),
+        };
+        r.unwrap_or_else(|e| e)
+    }
+
+    fn permutations(n: usize) -> Vec<Vec<usize>> {
+        fn go(k: usize, cur: &mut Vec<usize>, out: &mut Vec<Vec<usize>>) {
+            if k == cur.len() {
+                out.push(cur.clone());
+                return;
+            }
+            for i in k..cur.len() {
+                cur.swap(k, i);
+                go(k + 1, cur, out);
+                cur.swap(k, i);
+            }
+        }
+        let mut out = vec![];
+        go(0, &mut (0..n).collect(), &mut out);
+        out
+    }
+
+    pub fn generate(rng: &mut Rng, _thorough: bool) -> Vec<String> {
+        let mut out = vec![];
+        for s in ["c15mt.join 1 0 - -", "c15mt.stream 3 0 -", "c15mt.par 0 - -", "c15mt.join 1 1 0 0", "c15mt.dep 1 4 0"] {
+            out.push(s.to_string());
+        }
+        // all completion orders for n <= 5, windows 1..8 (thinned for n = 5), error sets by index
+        for n in 1..=5usize {
+            for (pi, perm) in permutations(n).iter().enumerate() {
+                for w in 1..=8usize {
+                    if n == 5 && (pi + w) % 4 != 0 {
+                        continue;
+                    }
+                    out.push(format!("c15mt.stream {w} {n} {}", nat_list(perm)));
+                    let mask = if (pi + w) % 3 == 0 { 0 } else { rng.usize_below(1 << n) };
+                    let errs: Vec<usize> = (0..n).filter(|i| mask >> i & 1 == 1).collect();
+                    out.push(format!("c15mt.join {w} {n} {} {}", nat_list(&errs), nat_list(perm)));
+                    if w == 1 {
+                        out.push(format!("c15mt.par {n} {} {}", nat_list(&errs), nat_list(perm)));
+                    }
+                }
+            }
+        }
+        // every single error position (first / last / beyond the window)
+        for n in 1..=6usize {
+            for e in 0..n {
+                for w in [1usize, 2, 3, 8] {
+                    let mut perm: Vec<usize> = (0..n).collect();
+                    rng.shuffle(&mut perm);
+                    out.push(format!("c15mt.join {w} {n} {e} {}", nat_list(&perm)));
+                }
+            }
+        }
+        // dependencies reaching d tasks ahead: completes iff d < window; two hanging cases only (2 s each)
+        for w in 1..=6usize {
+            for d in 0..w {
+                for n in [1usize, 2, 5, 9, 40] {
+                    out.push(format!("c15mt.dep {w} {n} {d}"));
+                }
+            }
+        }
+        out.push("c15mt.dep 2 6 2".to_string());
+        out.push("c15mt.dep 3 9 5".to_string());
+        // longer random ones
+        for _ in 0..200 {
+            let n = 1 + rng.usize_below(40);
+            let w = 1 + rng.usize_below(8);
+            let mut perm: Vec<usize> = (0..n).collect();
+            rng.shuffle(&mut perm);
+            let errs: Vec<usize> = if rng.bool() { vec![] } else { vec![rng.usize_below(n)] };
+            out.push(format!("c15mt.join {w} {n} {} {}", nat_list(&errs), nat_list(&perm)));
+        }
+        out
+    }
+
+    #[test]
+    fn verif_c15mt_join() {
+        run_suite("c15mt_join", generate, exec);
     }
 }
